@@ -230,6 +230,16 @@ func psReachValV(fn *ssa.Function, starts []*ssa.BasicBlock, cut func(from *ssa.
 						return truth, true
 					}
 				}
+				// equality of two boolean values ((a == X) == (b == Y))
+				if x.Op == token.EQL || x.Op == token.NEQ {
+					if bt, isB := x.X.Type().Underlying().(*types.Basic); isB && bt.Kind() == types.Bool {
+						if a, okA := evalV(x.X, e); okA {
+							if b, okB := evalV(x.Y, e); okB {
+								return (a == b) == (x.Op == token.EQL), true
+							}
+						}
+					}
+				}
 				// both operands evaluate to integers (constants, valued atoms, constant-carrying phis)
 				if a, okA := evalInt(x.X, 0); okA {
 					if b, okB := evalInt(x.Y, 0); okB {
